@@ -401,6 +401,8 @@ def symbolic_returns(fn: ast.FunctionDef, rewrite=None, lenient: bool = False) -
             continue
         if isinstance(st, ast.Assign) and len(st.targets) == 1 and isinstance(st.targets[0], ast.Name):
             env[st.targets[0].id] = ev(st.value)
+        elif isinstance(st, ast.AnnAssign) and isinstance(st.target, ast.Name) and st.value is not None:
+            env[st.target.id] = ev(st.value)
         elif isinstance(st, ast.If) and only_assigns(st.body) and only_assigns(st.orelse):
             test = ev(st.test)
             names = [s.targets[0].id for s in st.body] + [s.targets[0].id for s in st.orelse]
